@@ -27,7 +27,9 @@ def main : IO Unit := do
   out.putStrLn s!"COVERED {covered BMV.Gen.MapRanges.sites rows}"
   out.putStrLn s!"BADKEYS {badKeys.length}"
   for s in BMV.Gen.MapRanges.sites do
-    match rows.find? (fun r => r.key == s.key) with
+    if s.key == sortedKeysKey then
+      out.putStrLn s!"SITE {s.key} generic:sortedkeys"
+    else match rows.find? (fun r => r.key == s.key) with
     | some r => out.putStrLn s!"SITE {s.key} {verdictKind r.verdict}"
     | none => out.putStrLn s!"SITE {s.key} UNCLASSIFIED"
   let _ ← BMV.Lines.foldStdin () fun _ l =>
